@@ -177,7 +177,7 @@ def main(run):
             for p in window.run_method(P, PRE + m, fields, [('ref', 'SELF'), av], facts=fs):
                 run.count('handle_paths')
                 for kind, msg in window.check_path(p, start, end, buf):
-                    if kind in ('unanalysable', 'tiling', 'underflow', 'placement'):
+                    if kind in ('unanalysable', 'tiling', 'underflow', 'placement', 'window'):
                         run.violation(f'handle|{kind}|{m}|{vn}', f'{PRE + m}({vn}): {msg} — a later accessor would slice outside the authority / panic')
     # path handle (D1/D2): every path of push / pop / clear / normalize keeps the window and never indexes outside it
     from . import c10
